@@ -45,6 +45,52 @@ theorem container_is_byte_queue (ds : List Bytes) (ops : List Op) :
   rw [abs_new] at b o
   exact ⟨o, b⟩
 
+/-! ### Several containers: operations that take another container as their argument -/
+
+open PB.ByteQueue (WOp)
+
+/-- `AppendContainer(other)` appends ALL compartments of `other`, whatever `other.offset` is. With `other` in any
+    state its history can leave it in (the invariant: consumed slots are empty) the receiver gains exactly the
+    bytes `other` still holds — also for `c.AppendContainer(c)`. -/
+theorem appendContainer_any_state (c d : C) (hc : Inv c) (hd : Inv d) :
+    Inv (appendContainer c d) ∧ abs (appendContainer c d) = abs c ++ abs d ∧
+    Inv (appendContainerAsBlock c d) ∧ abs (appendContainerAsBlock c d) = abs c ++ pack64 (abs d).length ++ abs d := by
+  obtain ⟨a, b⟩ := appendContainer_spec c d hc hd
+  obtain ⟨a', b'⟩ := appendContainerAsBlock_spec c d hc hd
+  exact ⟨a, b, a', b'⟩
+
+/-- … and this really depends on consumed slots being emptied (`c.compartments[i] = nil` in `skip` and
+    `WriteToSlice`): an argument whose consumed slot still holds its old bytes gives them back. -/
+theorem appendContainer_needs_emptied_slots :
+    ∃ c d : C, Inv c ∧ ¬ Inv d ∧ d.offset ≤ d.comps.length ∧ abs (appendContainer c d) ≠ abs c ++ abs d :=
+  ⟨⟨[[120]], 0⟩, ⟨[[97, 98], [99]], 1⟩, by simp [PB.Container.Inv], by simp [PB.Container.Inv], by decide, by decide⟩
+
+/-- One operation on a world of containers (a single-container call on any of them, or an append of one to
+    another — or to itself) keeps every invariant and agrees with the same operation on a world of byte queues. -/
+theorem world_refines_step (w : List C) (h : WInv w) (op : WOp) :
+    WInv (wstep w op).1 ∧ (wstep w op).1.map abs = (PB.ByteQueue.wstep (w.map abs) op).1 ∧
+    (wstep w op).2 = (PB.ByteQueue.wstep (w.map abs) op).2 := wstep_refines w h op
+
+theorem world_refines_run (ops : List WOp) : ∀ (w : List C), WInv w →
+    WInv (wrun w ops).1 ∧ (wrun w ops).1.map abs = (PB.ByteQueue.wrun (w.map abs) ops).1 ∧
+    (wrun w ops).2 = (PB.ByteQueue.wrun (w.map abs) ops).2 := by
+  induction ops with
+  | nil => intro w h; exact ⟨h, rfl, rfl⟩
+  | cons op ops ih =>
+    intro w h
+    obtain ⟨a, b, o⟩ := world_refines_step w h op
+    obtain ⟨a', b', o'⟩ := ih (wstep w op).1 a
+    simp only [wrun, PB.ByteQueue.wrun]
+    rw [b] at b' o'
+    exact ⟨a', b', by rw [o, o']⟩
+
+/-- Any finite history of any number of containers, with containers handed to each other in whatever state
+    they are, yields the results of the same history on plain byte queues. -/
+theorem containers_are_byte_queues (ops : List WOp) :
+    (wrun [] ops).2 = (PB.ByteQueue.wrun [] ops).2 ∧ (wrun [] ops).1.map abs = (PB.ByteQueue.wrun [] ops).1 := by
+  obtain ⟨_, b, o⟩ := world_refines_run ops [] (by intro c hc; simp at hc)
+  exact ⟨o, b⟩
+
 /-! ### Corollaries named after the clauses of the statement (about the spec, hence about the container) -/
 
 /-- Every byte comes out exactly once, in order and unmodified (byte-queue side): appending any slices and
@@ -104,6 +150,55 @@ theorem number_roundtrip (q : Bytes) (n : Nat) (hn : n < 2 ^ 64) :
   rw [this, hsplit, hu]
   simp [PB.ByteQueue.outNum]
 
+/-- Generic form of `number_roundtrip`: an encoding `p` of at most `k` bytes that the decoder reads back
+    exactly (whatever follows it) is read back exactly from the front of the queue and nothing else is consumed. -/
+theorem getNextN_roundtrip (unpack : Bytes → Except PB.Varint.Err (Nat × Nat)) (k : Nat) (hk : 0 < k)
+    (p q : Bytes) (n : Nat) (hp : p.length ≤ k) (hu : ∀ rest, unpack (p ++ rest) = .ok (n, p.length)) :
+    PB.ByteQueue.getNextN unpack (k : Int) (p ++ q) = (q, .ok n) := by
+  have hk' : ¬ ((k : Int) ≤ 0) := by omega
+  simp only [PB.ByteQueue.getNextN, PB.ByteQueue.peek, hk', if_false, Int.toNat_natCast]
+  rw [List.take_append, List.take_of_length_le hp, hu]
+  simp
+
+/-- Numbers of the narrow widths written with `Pack8/16/32` and put into a container are read back exactly by
+    `GetNextN8/16/32`, consuming exactly their own bytes. -/
+theorem narrow_number_roundtrip (q : Bytes) (n : Nat) :
+    (n < 2 ^ 8 → PB.ByteQueue.step (pack8 n ++ q) .getNextN8 = (q, .num n)) ∧
+    (n < 2 ^ 16 → PB.ByteQueue.step (pack16 n ++ q) .getNextN16 = (q, .num n)) ∧
+    (n < 2 ^ 32 → PB.ByteQueue.step (pack32 n ++ q) .getNextN32 = (q, .num n)) := by
+  refine ⟨fun h => ?_, fun h => ?_, fun h => ?_⟩
+  · have hu : ∀ rest, unpack8 (pack8 n ++ rest) = .ok (n, (pack8 n).length) := by
+      intro rest
+      unfold pack8
+      by_cases hn : n < 128
+      · simp [hn, unpack8, toNat_ofNat_lt (show n < 256 by omega)]
+      · simp [hn, unpack8, toNat_ofNat_lt (show n < 256 by omega)]
+    have hl : (pack8 n).length ≤ 2 := by unfold pack8; split <;> simp
+    have := getNextN_roundtrip unpack8 2 (by omega) (pack8 n) q n hl hu
+    simp only [PB.ByteQueue.step]
+    rw [show ((2 : Nat) : Int) = 2 from rfl] at this
+    rw [this]; rfl
+  · have hu : ∀ rest, unpack16 (pack16 n ++ rest) = .ok (n, (pack16 n).length) := by
+      intro rest
+      have := uvarint_put n rest (by omega)
+      simp [unpack16, unpackW, pack16, this]; omega
+    have hl : (pack16 n).length ≤ 3 := by
+      have := putUvarint_length_le 2 n (by omega); simpa [pack16] using this
+    have := getNextN_roundtrip unpack16 3 (by omega) (pack16 n) q n hl hu
+    simp only [PB.ByteQueue.step]
+    rw [show ((3 : Nat) : Int) = 3 from rfl] at this
+    rw [this]; rfl
+  · have hu : ∀ rest, unpack32 (pack32 n ++ rest) = .ok (n, (pack32 n).length) := by
+      intro rest
+      have := uvarint_put n rest (by omega)
+      simp [unpack32, unpackW, pack32, this]; omega
+    have hl : (pack32 n).length ≤ 5 := by
+      have := putUvarint_length_le 4 n (by omega); simpa [pack32] using this
+    have := getNextN_roundtrip unpack32 5 (by omega) (pack32 n) q n hl hu
+    simp only [PB.ByteQueue.step]
+    rw [show ((5 : Nat) : Int) = 5 from rfl] at this
+    rw [this]; rfl
+
 /-- A block whose declared length exceeds what is held is an error (for every declared length up to 2^64-1)
     — never a panic, an empty "successful" block or data that was not put in. -/
 theorem oversized_block_is_error (q : Bytes) (sz n : Nat)
@@ -113,6 +208,74 @@ theorem oversized_block_is_error (q : Bytes) (sz n : Nat)
   simp only [PB.ByteQueue.step, PB.ByteQueue.getNextBlock, PB.ByteQueue.getNextN, PB.ByteQueue.peek, h10]
   have h10' : ¬ ((10 : Int) ≤ 0) := by omega
   simp only [h10', if_false, hu, hbig, if_true, PB.ByteQueue.outBlock]
+
+/-! ### Constructors and serialization.go -/
+
+/-- `NewContainer(data...)` ("DEPRECATED … it's the same thing") builds exactly the container `New(data...)`
+    builds, so everything proved from `New` holds from `NewContainer`. -/
+theorem newContainer_eq_new (ds : List Bytes) : newContainer ds = new ds := rfl
+
+/-- `MarshalJSON` keeps the queue (it only restructures the compartments) and returns the JSON form of
+    exactly the bytes held. -/
+theorem marshalJSON_keeps_queue (c : C) (h : Inv c) :
+    Inv (marshalJSON c).1 ∧ abs (marshalJSON c).1 = abs c ∧ (marshalJSON c).2 = PB.Base64.jsonEnc (abs c) := by
+  obtain ⟨a, b, o⟩ := compileData_spec c h
+  exact ⟨a, b, by simp [marshalJSON, o]⟩
+
+/-- JSON round trip: the text `MarshalJSON` produces for a container `c` decodes (modelled codec: base64
+    in quotes) and `UnmarshalJSON` of it into ANY container `d` — fresh or used, whatever its offset — leaves
+    `d` holding exactly the bytes of `c`, in a state satisfying the representation invariant. -/
+theorem container_json_roundtrip (c d : C) (h : Inv c) :
+    ∃ raw, PB.Base64.jsonDec (marshalJSON c).2 = .ok raw ∧
+      (unmarshalJSON d (some raw)).2 = .ok () ∧
+      Inv (unmarshalJSON d (some raw)).1 ∧ abs (unmarshalJSON d (some raw)).1 = abs c := by
+  obtain ⟨_, _, o⟩ := marshalJSON_keeps_queue c h
+  refine ⟨abs c, ?_, rfl, by simp [unmarshalJSON, PB.Container.Inv], by simp [unmarshalJSON, abs]⟩
+  rw [o]
+  exact PB.Base64.jsonDec_jsonEnc (abs c)
+
+/-- The same with the codec as a parameter: for ANY decoder that inverts the encoder on the text produced. -/
+theorem container_json_roundtrip_param (enc : Bytes → Bytes) (dec : Bytes → Option Bytes)
+    (hcodec : ∀ b, dec (enc b) = some b) (c d : C) (h : Inv c) :
+    abs (unmarshalJSON d (dec (enc (compileData c).2))).1 = abs c := by
+  obtain ⟨_, _, o⟩ := compileData_spec c h
+  rw [hcodec, o]
+  simp [unmarshalJSON, abs]
+
+/-- A text the JSON decoder rejects leaves the container exactly as it was (not only its abstract queue). -/
+theorem failed_unmarshal_leaves_container (c : C) : unmarshalJSON c none = (c, .error .json) := rfl
+
+/-- `WriteAllTo` into a writer that takes `budget` bytes and then fails: exactly the first `budget` bytes of
+    the queue reach the writer, in order; `nil` is returned iff everything fitted; the container is not
+    touched (the function does not return a new container state at all). -/
+theorem writeAllTo_writes_prefix (c : C) (budget : Nat) :
+    writeAllTo c budget = ((abs c).take budget, decide ((abs c).length ≤ budget)) := by
+  simp [writeAllTo, wtaLoop_spec, abs]
+
+theorem writeAllTo_complete (c : C) (budget : Nat) (hb : (abs c).length ≤ budget) :
+    writeAllTo c budget = (abs c, true) := by
+  rw [writeAllTo_writes_prefix, List.take_of_length_le hb]
+  simp [hb]
+
+/-- `GetNextN16` / `GetNextN32` hand at most 3 / 5 bytes to the decoder: the "greater than uint64" exit of
+    `Unpack16` / `Unpack32` (the `r < 0` branch) cannot be reached through the container — a varint needs
+    its tenth byte to overflow. -/
+theorem narrow_reads_cannot_overflow (bs : Bytes) (h : bs.length ≤ 9) : uvarint bs ≠ .overflow := by
+  have aux : ∀ (bs : Bytes) (i x : Nat), i + bs.length ≤ 9 → uvarintAux i x bs ≠ .overflow := by
+    intro bs
+    induction bs with
+    | nil => intro i x _; simp [uvarintAux]
+    | cons b rest ih =>
+      intro i x hi
+      simp only [List.length_cons] at hi
+      have h10 : i ≠ 10 := by omega
+      have h9 : ¬ (i = 9 ∧ b.toNat > 1) := by omega
+      simp only [uvarintAux, h10, if_false, h9]
+      by_cases hb : b.toNat < 128
+      · simp [hb]
+      · simp only [hb, if_false]
+        exact ih (i + 1) _ (by omega)
+  exact aux bs 0 0 (by omega)
 
 /-! ### Non-vacuity: a state with spare slots, offset > 0 and consumed (nil) slots -/
 
@@ -124,5 +287,23 @@ example : Inv (run (new []) [.prepend [1], .getAll, .append [5]]).1 := by
   exact (refines_run _ _ (inv_new _)).1
 example : (run (new []) [.peek 3, .get 1, .getNextN16, .getNextBlock]).2
     = [.bytes [], .err "notenough", .err "small", .err "small"] := by decide
+example : (run (newContainer [[1, 2], [], [3]]) [.prepend [9], .get 1, .writeAllTo 2, .writeAllTo 3,
+      .unmarshalJSON (some [7, 7]), .length, .unmarshalJSON none, .getAll]).2
+    = [.unit, .bytes [9], .wts [1, 2] false, .wts [1, 2, 3] true,
+       .unit, .num 2, .err "json", .bytes [7, 7]] := by decide
+example : (run (newContainer [[1, 2], [], [3]]) [.prepend [9], .get 1, .marshalJSON, .length]).2
+    = [.unit, .bytes [9], .bytes [34, 65, 81, 73, 68, 34], .num 3] := by decide +kernel
+set_option maxRecDepth 8000 in
+example : PB.Base64.jsonDec [34, 65, 81, 73, 68, 34] = .ok [1, 2, 3] := by decide
+set_option maxRecDepth 8000 in
+example : PB.Base64.jsonDec [34, 65, 81, 61, 68, 34] = .err := by decide
+set_option maxRecDepth 8000 in
+example : PB.Base64.jsonDec [91, 49, 93] = .delegated := by decide
+/- the scenario of a container handed over after part of it was consumed: New("ab","cd","ef"); Get(3);
+   x.AppendContainer(it) must give "x" ++ "def" -/
+example : (wrun [] [.newc [[97, 98], [99, 100], [101, 102]], .newc [[120]], .on 0 (.get 3), .appendFrom 1 0,
+      .on 1 .getAll, .on 0 (.prepend [9]), .appendFrom 0 0, .on 0 .getAll, .on 7 .length]).2
+    = [.unit, .unit, .bytes [97, 98, 99], .unit, .bytes [120, 100, 101, 102], .unit, .unit,
+       .bytes [9, 100, 101, 102, 9, 100, 101, 102], .err "noslot"] := by decide
 
 end PB.C16
